@@ -99,14 +99,22 @@ Qed.
 (* ------------------------------------------------------------------ reading the cells *)
 Lemma range_clause : forall r gs c v x,
   effective r (c_kw c) = Some v -> value_Q v = Some x ->
-  violated r (CRange gs c) = forallb (spec_guard r) gs && negb (pred_holds (rq_n r) (c_ty c) (c_pred c) x).
+  violated r (CRange gs c) = forallb (spec_guard r) gs && negb (pred_holds (spec_env r) (c_ty c) (c_pred c) x).
 Proof. intros r gs c v x E X. cbn [violated]. unfold out_of_range. now rewrite E, X. Qed.
 
-Lemma inside_index_range : forall n lo z,
-  pred_holds n TIndex (in_range (BInt lo) BN) (inject_Z z) = true <-> (lo <= z < n)%Z.
+Lemma inside_index_range : forall E lo z,
+  pred_holds E TIndex (in_range (BInt lo) BN) (inject_Z z) = true <-> (lo <= z < e_n E)%Z.
 Proof.
-  intros n lo z. rewrite in_range_spec. unfold bound. cbn [eval_bexpr coerce num_Q].
+  intros E lo z. rewrite in_range_spec. unfold bound. cbn [eval_bexpr coerce num_Q].
   rewrite <- Zle_Qle, <- Zlt_Qlt. reflexivity.
+Qed.
+
+Lemma inside_closed_index_range : forall E lo hi k z,
+  eval_bexpr E hi = NI k ->
+  (pred_holds E TIndex (in_closed_range (BInt lo) hi) (inject_Z z) = true <-> (lo <= z <= k)%Z).
+Proof.
+  intros E lo hi k z H. rewrite in_closed_range_spec. unfold bound. rewrite H.
+  cbn [eval_bexpr coerce num_Q]. rewrite <- !Zle_Qle. reflexivity.
 Qed.
 
 Lemma target_dimension_cell : forall r z,
@@ -123,6 +131,56 @@ Lemma num_neighbors_cell : forall r gs z,
 Proof.
   intros r gs z E G. rewrite (range_clause r gs cell_num_neighbors (VIndex z) (inject_Z z) E eq_refl).
   rewrite G. cbn [andb]. rewrite negb_false_iff. apply inside_index_range.
+Qed.
+
+(* the ranges added by repairs F21 / F12 *)
+Lemma td_features_cell : forall r z,
+  effective r kw_target_dimension = Some (VIndex z) ->
+  (violated r (CRange [] cell_td_features) = false <-> (1 <= z <= cur_dim r)%Z).
+Proof.
+  intros r z E. rewrite (range_clause r [] cell_td_features (VIndex z) (inject_Z z) E eq_refl).
+  cbn [forallb andb]. rewrite negb_false_iff.
+  apply (inside_closed_index_range (spec_env r) 1 BDim (cur_dim r) z). reflexivity.
+Qed.
+
+Lemma td_neighbors_cell : forall r z k,
+  effective r kw_target_dimension = Some (VIndex z) ->
+  effective r kw_num_neighbors = Some (VIndex k) ->
+  (violated r (CRange [] cell_td_neighbors) = false <-> (1 <= z <= k)%Z).
+Proof.
+  intros r z k E K. rewrite (range_clause r [] cell_td_neighbors (VIndex z) (inject_Z z) E eq_refl).
+  cbn [forallb andb]. rewrite negb_false_iff.
+  apply (inside_closed_index_range (spec_env r) 1 (BParam kw_num_neighbors TIndex) k z).
+  cbn [eval_bexpr spec_env e_get]. now rewrite K.
+Qed.
+
+Lemma td_landmarks_cell : forall r z q,
+  effective r kw_target_dimension = Some (VIndex z) ->
+  effective r kw_landmark_ratio = Some (VScalar q) ->
+  (violated r (CRange [] cell_td_landmarks) = false <->
+   (1 <= z <= Qtrunc (inject_Z (rq_n r) * q))%Z).
+Proof.
+  intros r z q E K. rewrite (range_clause r [] cell_td_landmarks (VIndex z) (inject_Z z) E eq_refl).
+  cbn [forallb andb]. rewrite negb_false_iff.
+  apply (inside_closed_index_range (spec_env r) 1
+           (BTrunc (BMul BN (BParam kw_landmark_ratio TScalar))) _ z).
+  cbn [eval_bexpr spec_env e_get e_n]. now rewrite K.
+Qed.
+
+Lemma td_two_cell : forall r z th,
+  effective r kw_target_dimension = Some (VIndex z) ->
+  effective r kw_sne_theta = Some (VScalar th) ->
+  (violated r (CRange [theta_positive] cell_td_two) = false <-> ((0 < th)%Q -> z = 2%Z)).
+Proof.
+  intros r z th E K.
+  rewrite (range_clause r [theta_positive] cell_td_two (VIndex z) (inject_Z z) E eq_refl).
+  cbn [forallb spec_guard theta_positive guard_on]. rewrite K. cbn [value_Q]. rewrite andb_true_r.
+  assert (P : pred_holds (spec_env r) (c_ty cell_td_two) (c_pred cell_td_two) (inject_Z z) = true
+              <-> (2 <= z <= 2)%Z).
+  { apply (inside_closed_index_range (spec_env r) 2 (BInt 2) 2 z). reflexivity. }
+  destruct (Qltb 0 th) eqn:L; cbn [Bool.eqb andb].
+  - apply Qltb_lt in L. rewrite negb_false_iff, P. split; [intros; lia | intros H; specialize (H L); lia].
+  - split; auto. intros _ H. apply Qltb_lt in H. congruence.
 Qed.
 
 Lemma positive_cell : forall r c v x,
